@@ -271,7 +271,14 @@ namespace ratio
         std::vector<lit> lits;
         for (const auto &bex : xprs)
             lits.push_back(bex->l);
-        return new bool_item(*this, sat_cr.new_exct_one(std::move(lits)));
+        // sat_core::new_exct_one returns a literal which, when true, forces the constraint but which is not forced by it:
+        // since the expression can appear in any boolean context (e.g., negated), we build an equivalent literal..
+        std::vector<lit> parts;
+        parts.push_back(sat_cr.new_disj(lits)); // at least one..
+        for (size_t i = 0; i < lits.size(); ++i)
+            for (size_t j = i + 1; j < lits.size(); ++j)
+                parts.push_back(sat_cr.new_disj({!lits[i], !lits[j]})); // at most one..
+        return new bool_item(*this, sat_cr.new_conj(std::move(parts)));
     }
 
     CORE_EXPORT arith_expr core::add(const std::vector<arith_expr> &xprs) noexcept
